@@ -302,6 +302,31 @@ func corpusInputs() ([]Input, []map[string]string) {
 			{`"550e8400-e29b-41d4-a716-446655440000"`, "uuid"}, {`"2021-01-02"`, "date"}, {`1.5`, "float"}} {
 			special(Input{Kind: "project", Project: &sut.Project{Root: fmt.Sprintf("{\n  \"v\": %s, // {or: [{type: %q}, {type: \"integer\", min: 1}]}\n  \"w\": %s // {or: [\"integer\", %q]}\n}", ty.ex, ty.ty, ty.ex, ty.ty)}})
 		}
+		// choices of 2 - 7 user types, nullable and not, as property values and array items (the example builder
+		// walks the list of names the schema holds)
+		for n := 2; n <= 7; n++ {
+			var names []string
+			var types []sut.Named
+			for i := 0; i < n; i++ {
+				nm := fmt.Sprintf("@c%d", i)
+				names = append(names, nm)
+				types = append(types, sut.Named{Name: nm, Text: fmt.Sprintf("{\n  \"of\": %d,\n  \"next\": %s // {optional: true}\n}", i, fmt.Sprintf("@c%d", (i+1)%n))})
+			}
+			ch := strings.Join(names, " | ")
+			special(Input{Kind: "project", Project: &sut.Project{Root: fmt.Sprintf("{\n  \"v\": %s, // {nullable: true}\n  \"w\": [\n    %s // {nullable: true}\n  ],\n  \"x\": %s\n}", ch, ch, ch), Types: types}})
+		}
+		// ... and a nullable choice inside the types themselves: the example ends in the null fall-back
+		for _, n := range []int{2, 3} {
+			var names []string
+			for i := 0; i < n; i++ {
+				names = append(names, fmt.Sprintf("@n%d", i))
+			}
+			var types []sut.Named
+			for i, nm := range names {
+				types = append(types, sut.Named{Name: nm, Text: fmt.Sprintf("{\n  \"of\": %d,\n  \"alt\": %s // {nullable: true}\n}", i, strings.Join(names, " | "))})
+			}
+			special(Input{Kind: "project", Project: &sut.Project{Root: fmt.Sprintf("{\n  \"v\": %s // {nullable: true}\n}", strings.Join(names, " | ")), Types: types}})
+		}
 		// regex schemas whose example leaves the generator little or no choice, alone and as a type of a project
 		for _, s := range []string{"/^a.c$/", `/id-.-.\.x/`, "/OK/", `/^v1\.0$/`, "/a.?b/", "/./", "/^(ab|cd)$/", "/^[0-9]{3}-x$/"} {
 			special(Input{Kind: "regex", Text: s})
